@@ -24,6 +24,15 @@ def simulate (state : String) : String :=
   let s4 := exec s3 2
   if e1 && e2 && (s4.thr 2).pc.isEmpty && (state == "none" || s4.mu == some 1) then "done" else "blocked"
 
+/-- the converse cell: a reader is parked after its `load`; a committing writer then runs its whole program. The answer is
+    `done` iff each of its six actions was enabled when its turn came (`writers_wait_only_for_writers`). -/
+def simulateW : String :=
+  let s0 : State Nat := invoke (init 0) 2 readerProg id
+  let s1 := exec s0 2                                   -- the reader holds the tree it loaded and stays there
+  let s2 := invoke s1 1 commitProg (· + 1)
+  let (ok, s3) := (List.range 6).foldl (fun (acc : Bool × State Nat) _ => (acc.1 && enabled acc.2 1, exec acc.2 1)) (true, s2)
+  if ok && (s3.thr 1).pc.isEmpty && s3.mu.isNone then "done" else "blocked"
+
 def field (cfg : List String) (k : String) : String :=
   match cfg.find? (·.startsWith (k ++ "=")) with
   | some kv => (kv.drop (k.length + 1)).toString
@@ -33,7 +42,7 @@ def handle (fields : List String) : String :=
   match fields with
   | [_, cfg] =>
     let kvs := cfg.splitOn ";"
-    let r := simulate (field kvs "state")
+    let r := if (field kvs "entry").startsWith "W:" then simulateW else simulate (field kvs "state")
     "M=" ++ r ++ "\tS=done\tT=" ++ field kvs "entry" ++ ",parked-" ++ field kvs "state" ++ ",opts-" ++ field kvs "opts" ++ "\tN=1"
   | _ => "M=bad-case"
 
